@@ -247,7 +247,14 @@ def power(p, e):
                 for prime, k in factorint(c).items():
                     out = mul_raw(out, atom_poly(("const", int(prime)), scale(e, k)))
             else:
-                raise NFError("negative base under a non-integer exponent")
+                # -1 * S^(odd integer) * ...  ==  (-S)^(odd integer) * ...: move the sign into a sum atom (no claim
+                # about the sign of the sum is made; the atom of -S is distinct from the atom of S)
+                flip = next((i for i, (atom, x) in enumerate(m) if atom[0] == "sum" and (as_int(unkey(x)) or 0) % 2 == 1), None)
+                if flip is None:
+                    raise NFError("negative base under a non-integer exponent")
+                atom, x = m[flip]
+                m2 = m[:flip] + m[flip + 1 :] + ((("sum", key(neg(unkey(atom[1])))), x),)
+                return power({tuple(sorted(m2, key=rk)): -c}, e)
         mm = tuple(sorted(((atom, key(mul(unkey(x), e))) for atom, x in m), key=rk))
         mm = tuple((a, x) for a, x in mm if x)
         return expand(mul_raw(out, {mm: F(1)}))
